@@ -49,6 +49,9 @@ def tasks(tier):
         # more than one point without cells (several control points / unused nodes)
         ("partition 2d, two cell-less points", "run_partition", dict(dim=2, orphan="two")),
         ("partition 3d, two cell-less points", "run_partition", dict(dim=3, orphan="two")),
+        # where the set of points without cells comes from, and the dual meshes mixed containers are built on
+        ("points without cells", "run_discrete_geometry", {}),
+        ("dual mesh", "run_dual_mesh", {}),
     ]
 
 
@@ -455,4 +458,78 @@ def run_loadcases(col, dim, orphan="last"):
                     pres[dim * p + axes[0]] = s0
                 compare("axes=%s sym=%s given=%s" % (axes, symflag, given), lc, pres, "shear")
     col.info["loadcase_configs"] = col.info.get("loadcase_configs", 0) + count
+    finish_info(col, it)
+
+
+def run_discrete_geometry(col):
+    """O6: DiscreteGeometry.update derives points_without_cells / points_with_cells / cells_per_point from the connectivity -- the set that
+    dof.partition adds to the prescribed unknowns.  Evaluated from source for every position of the unattached points."""
+    it = new_interp()
+    DG = it.get("felupe.mesh._discrete_geometry:DiscreteGeometry")
+    w = method_where(DG, "update")
+    npts = 7
+    configs = [("none", [[0, 1, 2], [2, 3, 4], [4, 5, 6]]), ("last", [[0, 1, 2], [2, 3, 4], [3, 4, 5]]), ("first", [[1, 2, 3], [3, 4, 5], [4, 5, 6]]),
+               ("middle", [[0, 1, 2], [2, 4, 5], [4, 5, 6]]), ("first and last", [[1, 2, 3], [2, 3, 4], [3, 4, 5]]), ("two in the middle", [[0, 1, 4], [1, 4, 5], [4, 5, 6]]),
+               ("first two, last attached", [[2, 3, 4], [3, 4, 5], [4, 5, 6]])]
+    pts = symarray("X", (npts, 2))
+
+    def facts(cells):
+        used = sorted({p for c in cells for p in c})
+        return used, [p for p in range(npts) if p not in used], {p: sum(1 for c in cells for q in c if q == p) for p in used}
+
+    def compare(m, cells):
+        used, orphans, counts = facts(cells)
+        pw = [int(v) for v in np.asarray(it.getattr(m, "points_without_cells")).reshape(-1)]
+        pc = [int(v) for v in np.asarray(it.getattr(m, "points_with_cells")).reshape(-1)]
+        cpp = np.asarray(it.getattr(m, "cells_per_point"))
+        okc = all(int(P(cpp[p]).const_value()) == counts[p] for p in used) if cpp.shape[0] == npts else (not orphans and [int(P(v).const_value()) for v in cpp] == [counts[p] for p in used])
+        return pw == orphans and pc == used and okc, "%s: points_without_cells %s (expected %s), points_with_cells %s, cells_per_point %s" % (w, pw, orphans, pc, [str(v) for v in cpp])
+
+    for name, cells in configs:
+        def chk(cells=cells):
+            m = it.call(DG, [pts, np.array(cells)], {})
+            return compare(m, cells)
+        col.check("C08.O6", "DiscreteGeometry unattached points: %s" % name, "points_without_cells is exactly the set of point ids that occur in no cell (any position), points_with_cells its complement, cells_per_point the multiplicity of the attached ones", chk)
+    # history: update(cells=...) on an existing geometry gives the facts of the new connectivity
+    for (n1, c1), (n2, c2) in ((configs[0], configs[3]), (configs[1], configs[2]), (configs[2], configs[0])):
+        def chk_u(c1=c1, c2=c2):
+            m = it.call(DG, [pts, np.array(c1)], {})
+            it.call_method(m, "update", [], dict(cells=np.array(c2)))
+            return compare(m, c2)
+        col.check("C08.O6", "DiscreteGeometry.update(cells): %s -> %s" % (n1, n2), "after update(cells=...) the derived sets describe the new connectivity", chk_u)
+    finish_info(col, it)
+
+
+def run_dual_mesh(col):
+    """O7: mesh.dual (the meshes of dual fields in mixed containers): the returned connectivity, and -- since the first field's numbering is read
+    from the parent connectivity -- the parent mesh is left as it was."""
+    it = new_interp()
+    dual = it.get("felupe.mesh._dual:dual")
+    w = "mesh/_dual.py dual"
+    pts = symarray("X", (7, 2))
+    cells = np.array([[0, 1, 2, 3, 4, 5], [2, 1, 6, 4, 3, 5]])
+    for disconnect in (True, False):
+        for ppc in (None, 3, 1):
+            for offset in (0, 2):
+                def chk(disconnect=disconnect, ppc=ppc, offset=offset):
+                    c_in = cells.copy()
+                    p_in = pts.copy()
+                    pn, cn, ct = it.call(dual, [p_in, c_in, "triangle6"], dict(points_per_cell=ppc, disconnect=disconnect, offset=offset, calc_points=True))
+                    cn = npmodel.to_int_array(np.asarray(cn))
+                    k = cells.shape[1] if ppc is None else ppc
+                    want = (np.arange(2 * k).reshape(2, k) if disconnect else cells[:, :k]) + offset
+                    untouched = np.array_equal(c_in, cells) and all(is_zero(P(a) - P(b)) for a, b in zip(p_in.reshape(-1), pts.reshape(-1)))
+                    pn = npmodel.to_obj(np.asarray(pn))
+                    enough = pn.shape[0] > int(want.max())
+                    geo = True
+                    if disconnect:
+                        # corner t of cell c sits at the parent's coordinates of that corner
+                        for c in range(2):
+                            for t in range(k):
+                                if any(not is_zero(P(pn[want[c, t], i]) - pts[cells[c, t], i]) for i in range(2)):
+                                    geo = False
+                    return np.array_equal(cn, want) and untouched and enough and geo, "%s: cells %s expected %s; parent arrays untouched: %s; %d points; coordinates %s" % (
+                        w, cn.tolist(), want.tolist(), untouched, pn.shape[0], geo)
+                col.check("C08.O7", "mesh.dual(points_per_cell=%s, disconnect=%s, offset=%d)" % (ppc, disconnect, offset),
+                          "returns the leading corners of every cell (shared or one set per cell) shifted by the offset, enough points for them, and leaves the parent's points and cells untouched", chk)
     finish_info(col, it)
